@@ -287,3 +287,25 @@ def near_miss(rng: random.Random, text: str) -> str:
             glue = p[-1].isalnum() and nxt[0].isalnum()
             out.append(' ' if glue or rng.random() < 0.5 else '')
     return ''.join(out)
+
+
+def single_edit_neighbourhood() -> T.List[str]:
+    """Every string one token edit away (delete / insert / replace, tokens from SOUP_TOKENS) from a
+    well-formed expression of depth <= 1 and arity <= 2 - enumerated, deduplicated.  Contains e.g.
+    `all(a b)` (comma deleted) and `not(a, b)` (`all` replaced)."""
+    bases = list(ATOMS) + list(level_up(ATOMS, 2))
+    out: T.Dict[str, None] = {}
+    for ast in bases:
+        toks = refcfg.tokenize(refcfg.render(ast, 0))
+        parts = [t if k != 'str' else f'"{t}"' for k, t in toks]
+        variants: T.List[T.List[str]] = []
+        for i in range(len(parts)):
+            variants.append(parts[:i] + parts[i + 1:])
+            for t in SOUP_TOKENS:
+                variants.append(parts[:i] + [t] + parts[i + 1:])
+        for i in range(len(parts) + 1):
+            for t in SOUP_TOKENS:
+                variants.append(parts[:i] + [t] + parts[i:])
+        for v in variants:
+            out.setdefault(' '.join(v))
+    return list(out)
